@@ -154,7 +154,12 @@ def make_fn(torch, sh, nd):
             term = a * v
             acc = term if acc is None else acc + term
         return (c0 + acc) % P
-    src = "lambda *, " + ", ".join(names) + ": impl(" + ", ".join(f"{n}={n}" for n in names) + ")"
+    # the dependencies of a derived variable are the keyword-only parameters of its function — all of them, also those the
+    # function declares with a default value (a third of the nodes declare their last dependency that way)
+    decl = list(names)
+    if names and zlib.crc32(("sig:" + nd.name).encode()) % 3 == 0:
+        decl[-1] = f"{names[-1]}=None"
+    src = "lambda *, " + ", ".join(decl) + ": impl(" + ", ".join(f"{n}={n}" for n in names) + ")"
     return eval(src, {"impl": impl})
 
 
